@@ -52,6 +52,14 @@ class Gen:
       if r.random() < 0.3:
         e.add_animation_step(m.DiscreteAnimationStep(SP.Display, Fraction(1), None, r.choice([sp.DisplayType.none, sp.DisplayType.auto])))
 
+  def br_extras(self, b):
+    """a line break may carry specified styles and be the target of <set> (the IMSC reader maps <br><set .../></br> to it)"""
+    r = self.r
+    if self.scope["animation"] and r.random() < 0.3:
+      b.add_animation_step(m.DiscreteAnimationStep(SP.Color, r.choice([None, Fraction(1)]), r.choice([None, Fraction(3)]), sp.NamedColors.red.value))
+    if self.scope["styles"] and r.random() < 0.2:
+      b.set_style(SP.Color, sp.NamedColors.lime.value)
+
   def simple_styles(self, e):
     """a few inheritable / non-inheritable styles that writers look at"""
     r = self.r
@@ -98,6 +106,7 @@ class Gen:
       elif k < 0.75:
         b = m.Br(doc)
         b.set_id(self.nid())
+        self.br_extras(b)
         s.push_child(b)
       else:
         s.push_child(self.span(doc, regions, depth + 1))
@@ -153,6 +162,7 @@ class Gen:
       elif k < 0.85:
         b = m.Br(doc)
         b.set_id(self.nid())
+        self.br_extras(b)
         p.push_child(b)
       elif self.scope["ruby"]:
         p.push_child(self.ruby(doc, regions))
